@@ -10,7 +10,13 @@ import (
 )
 
 func Go(ctx context.Context, w *sync.WaitGroup, f func()) {
-	waitForRoutine(ctx)
+	if ctx.Err() != nil {
+		// a cancelled search starts no new work
+		return
+	}
+	if !waitForRoutine(ctx) {
+		return
+	}
 	if w != nil {
 		w.Add(1)
 	}
